@@ -352,6 +352,24 @@ pub fn sem_sheet(ws: &Worksheet) -> SheetDump {
             .collect();
         dbg(&v)
     });
+    d.parts.insert("one_cell_anchors".into(), {
+        // shapes anchored to one cell (text boxes as LibreOffice/Google/openpyxl write them)
+        let v: Vec<String> = ws
+            .get_worksheet_drawing()
+            .get_one_cell_anchor_collection()
+            .iter()
+            .map(|a| {
+                format!(
+                    "from={} cx={} cy={} name={:?}",
+                    a.get_from_marker().get_coordinate(),
+                    a.get_extent().get_cx(),
+                    a.get_extent().get_cy(),
+                    a.get_shape().map(|s| s.get_non_visual_shape_properties().get_non_visual_drawing_properties().get_name().to_string())
+                )
+            })
+            .collect();
+        dbg(&v)
+    });
     d.parts.insert("data_validations_2010".into(), {
         // Excel-2010 (x14) data validations, through value getters
         let v: Vec<String> = match ws.get_data_validations_2010() {
